@@ -21,5 +21,14 @@ GenNext ==
   \/ (CkCheck \/ CkCompact \/ CkSqlite \/ CkClassify \/ StoreFinish) /\ UNCHANGED hist
 GenSpec == GenInit /\ [][GenNext]_gvars
 
+(* negative controls run on this module too: when an invariant fails, the schedule that led there is  *)
+(* printed, so that the witness can be replayed on the real code (where the mechanism is switched on) *)
+Witness(I) == I \/ (PrintT(<<"@@W", ToJson([ops |-> hist])>>) /\ FALSE)
+WRebuildOK == Witness(RebuildOK)
+WNoSegmentAfterFailure == Witness(NoSegmentAfterFailure)
+WResetDetected == Witness(ResetDetected)
+WNoSpuriousReset == Witness(NoSpuriousReset)
+WNoRecapture == Witness(NoRecapture)
+
 Emit == (pc = "idle" /\ hist # <<>> /\ hist[Len(hist)].op = "ck") => PrintT(<<"@@", ToJson([ops |-> hist])>>)
 =============================================================================
